@@ -20,8 +20,8 @@ RULES = {
     "C13": [("sa.rules.b3", "r_C13"), ("sa.rules.c13", "r_C13eval"), ("sa.rules.cmisc", "r_C13d_C34f_C09d"), ("sa.rules.cmisc", "r_C13e"), ("sa.rules.c04", "r_C04defaults"), ("sa.rules.c17", "r_C18i"), ("sa.rules.b3", "r_C28b_C33b_C30bc"), ("sa.rules.cmeta", "r_mmapi")],
     "C14": [("sa.rules.b4", "r_ledger"), ("sa.rules.c14", "r_C14inst"), ("sa.rules.c14", "r_ledger2"), ("sa.rules.b3", "r_C13"), ("sa.rules.c14", "r_C14h"), ("sa.rules.c14", "r_C14d"), ("sa.rules.c14", "r_C14i"), ("sa.rules.c14", "r_C15h"), ("sa.rules.c14", "r_C15i"), ("sa.rules.cmeta", "r_initclass"), ("sa.rules.cmeta", "r_initobj")],
     "C15": [("sa.rules.b4", "r_ledger"), ("sa.rules.c14", "r_ledger2"), ("sa.rules.c14", "r_C14i"), ("sa.rules.c14", "r_C15h"), ("sa.rules.b3", "r_C16a"), ("sa.rules.c14", "r_C15i"), ("sa.rules.c17", "r_C17jkl"), ("sa.rules.c17", "r_C18i"), ("sa.rules.c14", "r_C14inst"), ("sa.rules.cmeta", "r_initclass"), ("sa.rules.c17e", "r_C17eval"), ("sa.rules.c17e", "r_C15eval")],
-    "C16": [("sa.rules.b3", "r_C16a"), ("sa.rules.c14", "r_ledger2"), ("sa.rules.c16", "r_cachekeys"), ("sa.rules.c16", "r_C16f"), ("sa.rules.c17", "r_C17i"), ("sa.rules.c25", "r_C27d"), ("sa.rules.b4", "r_ledger"), ("sa.rules.c14", "r_C14i"), ("sa.rules.c14", "r_C15h"), ("sa.rules.b6", "r_C19a_C01"), ("sa.rules.c14", "r_C14inst"), ("sa.rules.cmeta", "r_initclass"), ("sa.rules.c17", "r_C01h"), ("sa.rules.c17e", "r_C17eval"), ("sa.rules.c17e", "r_C15eval")],
-    "C17": [("sa.rules.b3", "r_C03de_C11a_C17bc"), ("sa.rules.b6", "r_C17ad_C22b"), ("sa.rules.c05", "r_none_tests"), ("sa.rules.c17", "r_C17fgh"), ("sa.rules.b4", "r_ledger"), ("sa.rules.c17", "r_C17i"), ("sa.rules.c17", "r_C17jkl"), ("sa.rules.c17", "r_C18i"), ("sa.rules.c17e", "r_C17eval"), ("sa.rules.c17e", "r_C15eval")],
+    "C16": [("sa.rules.b3", "r_C16a"), ("sa.rules.c14", "r_ledger2"), ("sa.rules.c16", "r_cachekeys"), ("sa.rules.c16", "r_C16f"), ("sa.rules.c17", "r_C17i"), ("sa.rules.c25", "r_C27d"), ("sa.rules.b4", "r_ledger"), ("sa.rules.c14", "r_C14i"), ("sa.rules.c14", "r_C15h"), ("sa.rules.b6", "r_C19a_C01"), ("sa.rules.c14", "r_C14inst"), ("sa.rules.cmeta", "r_initclass"), ("sa.rules.c17", "r_C01h"), ("sa.rules.c17e", "r_C17eval"), ("sa.rules.c17e", "r_C15eval"), ("sa.rules.c17e", "r_C17importuri")],
+    "C17": [("sa.rules.b3", "r_C03de_C11a_C17bc"), ("sa.rules.b6", "r_C17ad_C22b"), ("sa.rules.c05", "r_none_tests"), ("sa.rules.c17", "r_C17fgh"), ("sa.rules.b4", "r_ledger"), ("sa.rules.c17", "r_C17i"), ("sa.rules.c17", "r_C17jkl"), ("sa.rules.c17", "r_C18i"), ("sa.rules.c17e", "r_C17eval"), ("sa.rules.c17e", "r_C15eval"), ("sa.rules.c17e", "r_C17importuri")],
     "C18": [("sa.rules.b4", "r_ledger"), ("sa.rules.c14", "r_ledger2"), ("sa.rules.c14", "r_C15i"), ("sa.rules.c17", "r_C17jkl"), ("sa.rules.c17", "r_C18i"), ("sa.rules.c14", "r_C14inst"), ("sa.rules.c17e", "r_C17eval")],
     "C19": [("sa.rules.b6", "r_C19a_C01"), ("sa.rules.c16", "r_cachekeys"), ("sa.rules.c22", "r_visitor"), ("sa.rules.c01e", "r_C01visitors")],
     "C20": [("sa.rules.b1", "r_C20a"), ("sa.rules.b6", "r_C19a_C01"), ("sa.rules.c16", "r_cachekeys"), ("sa.rules.c22", "r_visitor"), ("sa.rules.c21", "r_matchvisitors")],
@@ -31,8 +31,8 @@ RULES = {
     "C24": [("sa.peg", "r_C24"), ("sa.rules.c16", "r_cachekeys"), ("sa.rules.c22", "r_C23g_C24d")],
     "C25": [("sa.rules.b2", "r_C25"), ("sa.rules.c25", "r_C25efg"), ("sa.rules.c01", "r_C01i"), ("sa.rules.c25", "r_who_writes"), ("sa.rules.cmeta", "r_initclass"), ("sa.rules.cmeta", "r_namespaces"), ("sa.rules.c01e", "r_C01visitors")],
     "C26": [("sa.rules.b2", "r_C26a"), ("sa.rules.b2", "r_C26bcdef"), ("sa.rules.c26", "r_C26eval"), ("sa.rules.c26", "r_C26state")],
-    "C27": [("sa.rules.b1", "r_C27"), ("sa.rules.c25", "r_C27d"), ("sa.rules.c25", "r_who_writes"), ("sa.rules.cmeta", "r_modelparams")],
-    "C28": [("sa.rules.b7", "r_origin"), ("sa.rules.b3", "r_C28b_C33b_C30bc"), ("sa.rules.c08", "r_C08bc"), ("sa.rules.cmisc", "r_C06bcd"), ("sa.rules.c25", "r_C28cd"), ("sa.rules.c25", "r_C28e"), ("sa.rules.c25", "r_C28f"), ("sa.rules.cmisc", "r_C13d_C34f_C09d"), ("sa.rules.cres", "r_resolver")],
+    "C27": [("sa.rules.b1", "r_C27"), ("sa.rules.c25", "r_C27d"), ("sa.rules.c25", "r_who_writes"), ("sa.rules.cmeta", "r_modelparams"), ("sa.rules.c17e", "r_C17importuri")],
+    "C28": [("sa.rules.b7", "r_origin"), ("sa.rules.b3", "r_C28b_C33b_C30bc"), ("sa.rules.c08", "r_C08bc"), ("sa.rules.cmisc", "r_C06bcd"), ("sa.rules.c25", "r_C28cd"), ("sa.rules.c25", "r_C28e"), ("sa.rules.c25", "r_C28f"), ("sa.rules.cmisc", "r_C13d_C34f_C09d"), ("sa.rules.cres", "r_resolver"), ("sa.rules.c17e", "r_C17importuri")],
     "C29": [("sa.rules.b5", "r_C29"), ("sa.rules.c29", "r_export2"), ("sa.rules.c29", "r_C29e"), ("sa.rules.c29", "r_C31d_C29f")],
     "C30": [("sa.rules.b1", "r_C30a"), ("sa.rules.c13", "r_C13eval"), ("sa.rules.b3", "r_C28b_C33b_C30bc"), ("sa.rules.c29", "r_cli2"), ("sa.rules.c26", "r_C26eval"), ("sa.rules.c26", "r_C26state"), ("sa.rules.b1", "r_C33a")],
     "C31": [("sa.rules.b4", "r_ledger"), ("sa.rules.c14", "r_ledger2"), ("sa.rules.c29", "r_export2"), ("sa.rules.c29", "r_C31d_C29f")],
@@ -46,16 +46,16 @@ ALSO = {
     # reference lists are attribute values too: the order clauses of C08 are clauses of C02 ("never reorder matched values")
     "C02": {"C08": ("C08.a", "C08.b", "C08.c", "C08.d"), "C01": ("C01.e", "C01.j")},
     # "matching object of the right type": the conformance test textx_isinstance is part of C07's selector
-    "C07": {"C01": ("C01.i",), "C03": ("C03.c", "C03.d", "C03.h"), "C16": ("C16.a",)},
+    "C07": {"C01": ("C01.i",), "C03": ("C03.c", "C03.d", "C03.h"), "C16": ("C16.a",), "C34": ("C34.h",)},     # C34.h: a reference bound to a builtin (a plain object) must not break the round when tool support is on
     # C14: "__init__ ... runs before any object processor" is the ordering clause C13.a; instrumentation/storage clauses of C15
     "C14": {"C01": ("C01.j",), "C13": ("C13.a",), "C15": ("C15.h", "C15.c", "C15.d", "C15.e", "C15.f")},
-    "C15": {"C16": ("C16.a",), "C14": ("C14.a", "C14.f", "C14.e", "C14.i", "C14.j", "C14.c", "C14.k"), "C18": ("C18.a", "C18.g", "C18.c", "C18.d", "C18.f", "C18.j")},
+    "C15": {"C16": ("C16.a",), "C14": ("C14.a", "C14.f", "C14.e", "C14.i", "C14.j", "C14.c", "C14.k"), "C18": ("C18.a", "C18.g", "C18.c", "C18.d", "C18.j")},
     # C09 "a Postponed result is never bound/stored": the builtins fallback clause of C07.b
     "C09": {"C07": ("C07.b", "C07.e"), "C08": ("C08.a", "C08.b", "C08.d")},   # "the result does not depend on the order taken": positional storage of list references
     # "a repeated load of the same file returns the cached model": cleanup of a failed load must not evict finished models
     "C17": {"C18": ("C18.b", "C18.j"), "C15": ("C15.j",)},
     # the reference spans of _pos_crossref_list are the (position, position_end) queued with each ObjCrossRef
-    "C34": {"C08": ("C08.c",), "C06": ("C06.b", "C06.c",), "C07": ("C07.d",), "C05": ("C05.f",)},    # def_file_name / filename of a location: the model found by get_model
+    "C34": {"C08": ("C08.c",), "C06": ("C06.b", "C06.c",), "C05": ("C05.f",)},    # def_file_name / filename of a location: the model found by get_model
     # a user object's own position must replace the class-level one (C06.b) before a processor error is located with it
     "C33": {"C06": ("C06.b", "C06.a")},
     # the parent link of an object of a user class is a collected attribute: it is lost when the instrumentation ends while a load is still building objects
